@@ -8,7 +8,7 @@
 
 namespace sim {
 
-static const long kMaxRestartsForVerdict = 20;
+static const long kMaxRestartsForVerdict = 15;
 // the drift grows by a constant factor per restart whatever the precision: relative to eps it shows earlier in long double
 static const long kMaxRestartsForVerdictLD = 8;
 
@@ -195,7 +195,7 @@ RunOutput run_hist(const Plan& plan, const RunOpts& o)
             if (rec.computes_since_init > 1) out.stats.add("compute.without_init");
             // The general (Arnoldi) solvers of the pinned tree lose the orthonormality of the basis over many
             // implicit restarts (known finding KF-arnoldi-restart-drift): numeric clauses give a verdict only
-            // while at most 20 restarts happened since init()
+            // while at most 15 restarts happened since init()
             const bool numeric_regime = no_regime_skip || !(family_is_general(spec.family) && rec.restarts_since_init > (spec.scalar == S_LDOUBLE ? kMaxRestartsForVerdictLD : kMaxRestartsForVerdict));
             if (!numeric_regime) out.stats.add("numeric.skipped_known_regime");
             if (numeric_on && numeric_regime)
